@@ -281,11 +281,47 @@ def run(ctx):
                        "with it", n.line)
     ctx.floor("bond-array-growth-sites", n_add, 5)
     # the buffers are sized by the cache
+    # Every store `view[.., counter]` whose index counts the bonds found so far for one atom (a local incremented by one, or an
+    # element of a per-atom counter array) goes into a dimension that was allocated with the cached maximum.
+    from ..exprnorm import same_expr
     for name in ("get_bonds", "get_all_bonds"):
         f = meths[name]
-        sized = [c for c in calls(f) if (call_name(c) or "") in ("np.zeros", "np.full") and CACHED in ast.unparse(c)]
-        ctx.ob("R3.buffer-sized-by-cache", BONDS, f"BondList.{name}", f"{len(sized)} buffers sized by {CACHED}",
-               len(sized) >= 2, "output buffers must be sized by the cached maximum", f.lineno, nontrivial=False)
+        shapes = {}
+        for st in stmts(f):
+            if isinstance(st, ast.Assign) and len(st.targets) == 1 and isinstance(st.targets[0], ast.Name):
+                v = st.value
+                if isinstance(v, ast.Call) and (call_name(v) or "") in ("np.zeros", "np.full", "np.empty", "np.ones") and v.args:
+                    sh = v.args[0]
+                    shapes[st.targets[0].id] = list(sh.elts) if isinstance(sh, (ast.Tuple, ast.List)) else [sh]
+                elif isinstance(v, ast.Name) and v.id in shapes:
+                    shapes[st.targets[0].id] = shapes[v.id]
+        loop_vars = {x.id for lp in walk_local(f) if isinstance(lp, ast.For) for x in ast.walk(lp.target) if isinstance(x, ast.Name)}
+        counters, counter_arrays = set(), set()
+        for st in walk_local(f):
+            if isinstance(st, ast.AugAssign) and isinstance(st.op, ast.Add):
+                if isinstance(st.target, ast.Name) and st.target.id not in loop_vars:
+                    counters.add(st.target.id)
+                elif isinstance(st.target, ast.Subscript) and isinstance(st.target.value, ast.Name):
+                    counter_arrays.add(st.target.value.id)
+        n_st = 0
+        for st in walk_local(f):
+            if not isinstance(st, ast.Assign):
+                continue
+            for t in st.targets:
+                if isinstance(t, ast.Subscript) and isinstance(t.value, ast.Name) and t.value.id in shapes:
+                    idx = list(t.slice.elts) if isinstance(t.slice, ast.Tuple) else [t.slice]
+                    for k, e in enumerate(idx):
+                        is_counter = isinstance(e, ast.Name) and e.id in counters or \
+                            isinstance(e, ast.Subscript) and isinstance(e.value, ast.Name) and e.value.id in counter_arrays
+                        if not is_counter:
+                            continue
+                        n_st += 1
+                        dims = shapes[t.value.id]
+                        ok = k < len(dims) and same_expr(dims[k], f"self.{CACHED}")
+                        ctx.ob("R3.buffer-sized-by-cache", BONDS, f"BondList.{name}", f"{ast.unparse(t)} <- dimension {k} of size {ast.unparse(dims[k]) if k < len(dims) else '?'}",
+                               ok, f"the position counts the bonds of one atom and is never compared with the buffer size: the dimension must "
+                               f"be allocated with self.{CACHED} (bounds checking is off)", st.lineno)
+        ctx.floor(f"counter-indexed-stores:{name}", n_st, 4)
 
     # ---------------- R4 who may write --------------------------------------
     n_w = 0
@@ -294,7 +330,8 @@ def run(ctx):
             continue
         if rel not in ctx.overrides:
             with open(ctx.path(rel), encoding="utf-8") as fh:
-                if CACHED not in fh.read():
+                txt_ = fh.read()
+                if CACHED not in txt_ and "_atom_count" not in txt_:
                     continue
         try:
             s2 = ctx.src(rel)
@@ -306,10 +343,14 @@ def run(ctx):
                     root = t
                     while isinstance(root, ast.Subscript):
                         root = root.value
-                    if isinstance(root, ast.Attribute) and root.attr == CACHED:
+                    # `self._atom_count = ..` inside another class is that class's own attribute (interface/pymol); the bound
+                    # fields of a BondList would be reached through some other expression (`bonds._atom_count`, `array.bonds._..`)
+                    foreign = isinstance(root, ast.Attribute) and (root.attr == CACHED or (
+                        root.attr == "_atom_count" and not (isinstance(root.value, ast.Name) and root.value.id == "self")))
+                    if foreign:
                         n_w += 1
                         ctx.ob("R4.who-may-write", rel, "<module>", n, False,
-                               f"{CACHED} of a BondList is written outside bonds.pyx", n.lineno)
+                               f"{root.attr} of a BondList (bound of its unchecked index arithmetic) is written outside bonds.pyx", n.lineno)
     ctx.count("foreign-writes", n_w)
     # positive control
     probe = ast.parse("x._max_bonds_per_atom = 3")
@@ -399,6 +440,13 @@ def length_guard(func, params):
 
 
 MUTANTS = [
+    Mutant("all-bonds-types-buffer-transposed", BONDS, "            (self._atom_count, self._max_bonds_per_atom), -1, dtype=np.int8\n",
+           "            (self._max_bonds_per_atom, self._atom_count), -1, dtype=np.int8\n", "R3.buffer-sized-by-cache", "BondList.get_all_bonds"),
+    Mutant("get-bonds-buffer-minus-one", BONDS, "        cdef np.ndarray bonds = np.zeros(self._max_bonds_per_atom,\n                                         dtype=np.uint32)",
+           "        cdef np.ndarray bonds = np.zeros(self._max_bonds_per_atom - 1,\n                                         dtype=np.uint32)", "R3.buffer-sized-by-cache", "BondList.get_bonds"),
+    Mutant("atom-count-written-by-atoms-module", "structure/atoms.py", "            self._array_length = self._coord.shape[-2]\n",
+           "            self._array_length = self._coord.shape[-2]\n            if self._bonds is not None:\n                self._bonds._atom_count = self._array_length\n",
+           "R4.who-may-write"),
     Mutant("add-bond-no-recompute", BONDS, "            self._max_bonds_per_atom = self._get_max_bonds_per_atom()\n\n    def remove_bond(",
            "\n    def remove_bond(", "R3.cached-bound-updated", "BondList.add_bond"),
     Mutant("get-bonds-raw-index", BONDS,
